@@ -85,7 +85,8 @@ PROPS = {
     'C18': entry(gens_cli.gen_c18, 200, 3000, 'real ViewCommand / ViewRawCommand runs (header on/off, sort on/off, windows incl. degenerate, archive selections) '
                  'on files with 17-digit values, infinities and NaN; text parsed back with Go\'s own ParseFloat/time.Parse', 'cmd/view.go, cmd/view_raw.go, cmd/points_list.go', shrink=False),
     'C20': entry(gens_cli.gen_c20, 150, 2500, 'real GenerateCommand runs at the wall clock (small steps, so every alignment of the instant to the steps occurs), '
-                 'fill on/off, maxima incl. 0, existing destination', 'cmd/generate.go', shrink=False),
+                 'fill on/off, maxima incl. 0, existing destination; one third of the cases run the generator and the per-archive write at an explicit instant '
+                 '(hook): 1.7e9, around 2^31, 2^31+1e8, 3e9, each aligned / unaligned / in the last finer slot of the coarsest interval, layouts incl. finer retention = one coarser step', 'cmd/generate.go', shrink=False),
     'C12': entry(gens_cli.gen_c12, 80, 1500, 'one real server (whispertool server) per driver process; view, view-raw, sum, both sides of diff, the source of '
                  'copy and file/item globbing run once against the directory and once against the URL, plus raw HTTP queries with a clock in the past; '
                  'file names contain + & % = ; #; the model predicts one answer for both modes', 'cmd/server.go handlers, client decoders in cmd/view.go, cmd/view_raw.go, cmd/glob.go, cmd/sum.go; net/http transports bytes', shrink=False),
